@@ -103,6 +103,7 @@ fn c10_strategy() -> impl Strategy<Value = Scenario> {
         hold: vec![],
         freeze_polls: false,
         initial_pending: vec![],
+        ds_read_faults: vec![],
             };
             // fund the HTLC for whatever amount the reference classifier expects
             if let Class::Trampoline { amount, .. } = scn.classify(0) {
